@@ -4,14 +4,17 @@
 // stub ChanceComputer) through ComputeConsensusGroup / GetConsensusValidatorsPublicKeys.
 //
 // (a) selection core, hash-independent: the coordinator gets a STUB hasher through its
-//     constructor. For the selection pre-image (8-byte step index ‖ "<round>-<randomness>")
-//     the stub's output is the next enumerated choice of mc.Explore, so every index sequence
-//     the modulo arithmetic of SelectionBasedProvider.Get can produce is run, for every
-//     eligible size / group size / weight vector of the bound.
+//
+//	constructor. For the selection pre-image (8-byte step index ‖ "<round>-<randomness>")
+//	the stub's output is the next enumerated choice of mc.Explore, so every index sequence
+//	the modulo arithmetic of SelectionBasedProvider.Get can produce is run, for every
+//	eligible size / group size / weight vector of the bound.
+//
 // (b) end to end with the real hasher: randomness × rounds × shards × epochs on two
-//     independently built coordinators with a production-size LRU group cache and one with a
-//     size-1 cache (every entry evicted by the next query), repeated calls, before and after
-//     an epoch change.
+//
+//	independently built coordinators with a production-size LRU group cache and one with a
+//	size-1 cache (every entry evicted by the next query), repeated calls, before and after
+//	an epoch change.
 //
 // Oracle (only what the statement says): no error for inputs known to the coordinator;
 // len(group) == configured size; members pairwise distinct by public key; every member in
@@ -58,7 +61,8 @@ func main() {
 		nRand := c.Pick(64, 1024)
 		c.Rule = fmt.Sprintf("(a) real coordinator with stub hasher: group size g in 1..4 x eligible size n in [g,g+%d] x weight vectors over %v^n "+
 			"(WithRater + stub ChanceComputer; the all-ones vector also on the plain coordinator) x target {shard 0, metachain} x every index sequence "+
-			"(one free choice in [0, L-removed) per selection step, even choices returned as-is, odd ones plus a huge multiple of the modulus); "+
+			"(one free choice in [0, L-removed) per selection step, even choices returned as-is, odd ones plus a huge multiple of the modulus; "+
+			"GetConsensusValidatorsPublicKeys additionally called for n <= g+2); "+
 			"(b) real blake2b%s hasher: 2 layouts x {plain, WithRater} x %d randomness values x rounds {0,1,2^63} x shards {0,1,meta} x epochs {0,1}, "+
 			"coordinators A (LRU 25000), A' (independent, LRU 25000), B (LRU size 1), each input queried repeatedly, epoch 0 also before the epoch change. "+
 			"non-trivial = (a) (g,n,weights) with an index sequence where a reduced index lands at/after an already removed range (adjustIndex skips >=1 entry); "+
@@ -280,6 +284,11 @@ func coreOne(c *mc.Ctx, cf coreCfg) map[string]struct{} {
 	}
 	outcomes := map[string]struct{}{}
 	nontrivial := false
+	// written-out cases come from three fixed configurations only (deterministic evidence)
+	sampleHere := cf.g == 3 && cf.n == 4 && cf.rater && fmt.Sprint(cf.weights) == "[3 1 3 1]"
+	samples := 0
+	// GetConsensusValidatorsPublicKeys (a second, memoised selection) is also called for n <= g+2
+	withKeys := cf.n <= cf.g+2
 	viol := func(sig string, d map[string]interface{}) {
 		d["config"] = cf.String()
 		d["index_choices"] = append([]int{}, h.picks...)
@@ -293,7 +302,9 @@ func coreOne(c *mc.Ctx, cf coreCfg) map[string]struct{} {
 		var e1, e2 error
 		if p := mc.Try(func() {
 			grp, e1 = nc.ComputeConsensusGroup(randomness, round, target, 0)
-			pks, e2 = nc.GetConsensusValidatorsPublicKeys(randomness, round, target, 0)
+			if withKeys {
+				pks, e2 = nc.GetConsensusValidatorsPublicKeys(randomness, round, target, 0)
+			}
 		}); p != "" {
 			viol("panic", map[string]interface{}{"panic": p})
 			return
@@ -322,7 +333,9 @@ func coreOne(c *mc.Ctx, cf coreCfg) map[string]struct{} {
 			viol("wrong-size", map[string]interface{}{"got": len(grp), "want": cf.g, "group": idx})
 			ok = false
 		}
-		if len(pks) != len(grp) || (len(grp) > 0 && pks[0] != string(grp[0].PubKey())) {
+		if !withKeys {
+			// leader / repeated-call checks are made for n <= g+2 and in part (b)
+		} else if len(pks) != len(grp) || (len(grp) > 0 && pks[0] != string(grp[0].PubKey())) {
 			viol("leader-not-first-public-key", map[string]interface{}{"group": idx, "public_keys": pks})
 			ok = false
 		} else {
@@ -383,7 +396,8 @@ func coreOne(c *mc.Ctx, cf coreCfg) map[string]struct{} {
 			}
 		}
 		outcomes[fmt.Sprintf("a:%d:%d:%v", cf.g, cf.n, idx)] = struct{}{}
-		if c.WantSample() && len(h.picks) >= 3 {
+		if sampleHere && samples < 2 && nontrivial {
+			samples++
 			c.Sample(map[string]interface{}{"part": "a", "config": cf.String(), "index_choices": append([]int{}, h.picks...), "group": idx})
 		}
 	})
